@@ -30,7 +30,7 @@ Definition ensure (st : dstate) : dstate * dcache :=
   end.
 
 (* LookupName *)
-Definition lookup_name (st : dstate) (n : name) : dstate * option (N * nat) :=
+Definition dm_lookup (st : dstate) (n : name) : dstate * option (N * nat) :=
   let '(st', c) := ensure st in (st', dc_map c !! n).
 
 (* AddNameDir's loop `for off := lastoff; off < dip.Size; off += DIRENTSZ`: the first free slot at or after `from` *)
@@ -72,6 +72,14 @@ Definition rem_name (st : dstate) (n : name) : dstate * bool :=
           d_cache := Some {| dc_map := delete n (dc_map c); dc_last := off |} |}, true)
   end.
 
+(* as the callers in nfs_ops.go do: look the name up, add it when absent (None = the name exists) *)
+Definition dm_addx (st : dstate) (i : N) (n : name) (room : bool) : dstate * option bool :=
+  let '(st1, r) := dm_lookup st n in
+  match r with
+  | Some _ => (st1, None)
+  | None => let '(st2, ok) := add_name st1 i n room in (st2, Some ok)
+  end.
+
 (* an aborted transaction drops the inode (and its name cache) from the inode cache *)
 Definition drop_cache (st : dstate) : dstate := {| d_slots := d_slots st; d_cache := None |}.
 
@@ -90,3 +98,10 @@ Fixpoint stays (a b : dslots) (b_all : dslots) : bool :=
       && stays ra (tl b) b_all
   end.
 Definition step_ok_b (a b : dslots) : bool := (length a <=? length b)%nat && stays a b b.
+
+(* ---- for the correspondence run (harness `dirmodel`): a state from / to plain lists ---- *)
+Definition dm_make (slots : dslots) (cache : option (nat * list (name * (N * nat)))) : dstate :=
+  {| d_slots := slots;
+     d_cache := match cache with Some (last, l) => Some {| dc_map := list_to_map l; dc_last := last |} | None => None end |}.
+Definition dm_cache_list (st : dstate) : option (nat * list (name * (N * nat))) :=
+  match d_cache st with Some c => Some (dc_last c, map_to_list (dc_map c)) | None => None end.
